@@ -294,7 +294,7 @@ func (buf ingestBuffer) search(key []byte, maxVersion *uint64) (*kv.Entry, error
 			if utils.CompareUserKeys(key, rng.max) > 0 {
 				continue
 			}
-			if rng.tbl.MaxVersionVal() <= *maxVersion {
+			if !supersedes(rng.tbl.MaxVersionVal(), *maxVersion) {
 				continue
 			}
 			if entry, err := rng.tbl.Search(key, maxVersion); err == nil {
